@@ -183,11 +183,18 @@ func run(c *core.Ctx) {
 		visitText("units-in-braces", nil, append(append([]byte("{ a "), text...), " b }"...))
 	})
 	// (c) literal payloads: every short content of a block string and of a string
+	expired := false
 	payload := func(kind string, alphabet []string, maxLen int, open, close string) {
 		buf := []string{}
 		idx := 0
 		var rec func()
 		rec = func() {
+			if idx&1023 == 0 && c.Expired() {
+				expired = true
+			}
+			if expired {
+				return
+			}
 			if c.Mine(idx) {
 				text := []byte("{ a(x: " + open + strings.Join(buf, "") + close + ") }")
 				visitText(kind, buf, text)
